@@ -46,12 +46,13 @@ def fuel_obj(name='conventional_jetA'):
     return _state[key]
 
 
-def model(flows=None, apu='running', aclass='narrow'):
-    """Sample B738 model with integer LTO fuel flows (g/s), APU variant and class."""
+def model(flows=None, apu='running', aclass='narrow', mode_order='idle_first'):
+    """Sample B738 model with integer LTO fuel flows (g/s), APU variant and class; the per-mode LTO sections are
+    listed idle .. take-off or (InventoryGen.tla ModeOrders) take-off .. idle, the ICAO databank's order."""
     from AEIC.config import config
     from AEIC.performance.models import PerformanceModel
 
-    key = ('pm', None if flows is None else tuple(sorted(flows.items())), apu, aclass)
+    key = ('pm', None if flows is None else tuple(sorted(flows.items())), apu, aclass, mode_order)
     if key in _state:
         return _state[key]
     if 'toml' not in _state:
@@ -63,6 +64,8 @@ def model(flows=None, apu='running', aclass='narrow'):
         for m, v in flows.items():
             mk = next(k for k in d[lk]['mode_data'] if k.lower() == m)
             d[lk]['mode_data'][mk]['fuel_kgs'] = v / 1000.0
+    if mode_order == 'takeoff_first':
+        d[lk]['mode_data'] = dict(reversed(list(d[lk]['mode_data'].items())))
     ak = next(k for k in d if k.lower() == 'apu_name')
     if apu == 'absent':
         del d[ak]
